@@ -1252,3 +1252,88 @@ Lemma no_half_population_refuted_full_lemma :
   (exists sch tt T m name v m' e, interpret_field sch tt T m name v = (m', e) /\ e <> [] /\ m' <> m) /\
   (exists sch tt T st m, interpret_lenient sch tt T [] [st] = LOk m [st] /\ m <> []).
 Proof. exact (conj no_half_population_refuted_lemma no_half_population_run_refuted_lemma). Qed.
+
+(* ================================================================== the repaired lenient run *)
+Section Repaired.
+Variable sch : schema.
+Variable tt : N.
+
+Lemma apply_all_app T : forall a b m,
+  apply_all sch tt T m (a ++ b) = match apply_all sch tt T m a with Some m1 => apply_all sch tt T m1 b | None => None end.
+Proof.
+  induction a as [|st r IH]; intros b m; cbn [app apply_all]; [reflexivity|].
+  destruct (interpret_field sch tt T m (sname st) (svalue st)) as [m1 [|x es]]; [apply IH|reflexivity].
+Qed.
+
+(* one pass: the message is what the interpreted options alone produce, each without error; every option of the
+   pass is either kept or interpreted, in order; the kept ones and the options of the other pass form the remainder *)
+Lemma pass_lenient_fx_spec c T : forall uo m m' rem done,
+  pass_lenient_fx sch tt c T m uo = Some (m', rem, done) ->
+  apply_all sch tt T m done = Some m' /\ subseq rem uo /\ subseq done uo /\
+  (List.length rem + List.length done = List.length uo)%nat.
+Proof.
+  induction uo as [|st r IH]; intros m m' rem done H; cbn [pass_lenient_fx] in H.
+  - inversion H; subst. repeat split; constructor.
+  - destruct (negb (Bool.eqb (is_custom st) c)).
+    + destruct (pass_lenient_fx sch tt c T m r) as [[[m2 rem2] done2]|] eqn:E; [|discriminate].
+      inversion H; subst. destruct (IH _ _ _ _ E) as [Ha [Hr [Hd Hl]]].
+      repeat split; [exact Ha|apply subseq_keep; exact Hr|apply subseq_drop; exact Hd|cbn [List.length]; lia].
+    + destruct (interpret_field sch tt T m (sname st) (svalue st)) as [m1 e] eqn:Ei.
+      destruct (has_panic e); [discriminate|]. destruct e as [|x es].
+      * destruct (pass_lenient_fx sch tt c T m1 r) as [[[m2 rem2] done2]|] eqn:E; [|discriminate].
+        inversion H; subst. destruct (IH _ _ _ _ E) as [Ha [Hr [Hd Hl]]].
+        repeat split; [cbn [apply_all]; rewrite Ei; exact Ha|apply subseq_drop; exact Hr|apply subseq_keep; exact Hd|cbn [List.length]; lia].
+      * destruct (pass_lenient_fx sch tt c T m r) as [[[m2 rem2] done2]|] eqn:E; [|discriminate].
+        inversion H; subst. destruct (IH _ _ _ _ E) as [Ha [Hr [Hd Hl]]].
+        repeat split; [exact Ha|apply subseq_keep; exact Hr|apply subseq_drop; exact Hd|cbn [List.length]; lia].
+Qed.
+
+Lemma subseq_trans {A} : forall (b c : list A), subseq b c -> forall a, subseq a b -> subseq a c.
+Proof.
+  induction 1 as [|x b c Hbc IH|x b c Hbc IH]; intros a Hab.
+  - exact Hab.
+  - inversion Hab; subst; [apply subseq_keep; apply IH; assumption|apply subseq_drop; apply IH; assumption].
+  - apply subseq_drop. apply IH. exact Hab.
+Qed.
+
+(* The repaired run: the options message is exactly what the interpreted options produce when applied alone, in the
+   order of the two passes and each without error - options that are kept uninterpreted leave no trace.  The
+   remainder and the interpreted options partition the statements, each in source order. *)
+Lemma no_half_population_repaired_lemma T m0 stmts m rem done :
+  interpret_lenient_fx sch tt T m0 stmts = Some (m, rem, done) ->
+  apply_all sch tt T m0 done = Some m /\ subseq rem stmts /\ (List.length rem + List.length done = List.length stmts)%nat.
+Proof.
+  unfold interpret_lenient_fx. intros H.
+  destruct (pass_lenient_fx sch tt false T m0 stmts) as [[[m1 r1] d1]|] eqn:E1; [|discriminate].
+  destruct (pass_lenient_fx sch tt true T m1 r1) as [[[m2 r2] d2]|] eqn:E2; [|discriminate].
+  inversion H; subst.
+  destruct (pass_lenient_fx_spec _ _ _ _ _ _ _ E1) as [Ha1 [Hr1 [Hd1 Hl1]]].
+  destruct (pass_lenient_fx_spec _ _ _ _ _ _ _ E2) as [Ha2 [Hr2 [Hd2 Hl2]]].
+  split; [rewrite apply_all_app, Ha1; exact Ha2|]. split; [exact (subseq_trans _ _ Hr1 _ Hr2)|].
+  rewrite app_length. lia.
+Qed.
+
+(* the repair changes nothing when strict interpretation succeeds *)
+Lemma pass_strict_lenient_fx c T : forall uo m m' rem,
+  pass_strict sch tt c T m uo = Ok (m', rem) -> exists done, pass_lenient_fx sch tt c T m uo = Some (m', rem, done).
+Proof.
+  induction uo as [|st r IH]; intros m m' rem H; cbn [pass_strict] in H; cbn [pass_lenient_fx].
+  - inversion H; eauto.
+  - destruct (negb (Bool.eqb (is_custom st) c)).
+    + destruct (pass_strict sch tt c T m r) as [[m2 rem2]|x] eqn:E2; [|discriminate].
+      inversion H; subst. destruct (IH _ _ _ E2) as [d Hd]. rewrite Hd. eauto.
+    + destruct (interpret_field sch tt T m (sname st) (svalue st)) as [m1 [|x es]]; [|discriminate].
+      cbn [has_panic existsb]. destruct (IH _ _ _ H) as [d Hd]. rewrite Hd. eauto.
+Qed.
+
+Lemma strict_ok_implies_lenient_fx_same_lemma T m0 stmts m rem :
+  interpret_strict sch tt T m0 stmts = Ok (m, rem) ->
+  exists done, interpret_lenient_fx sch tt T m0 stmts = Some (m, [], done).
+Proof.
+  intros H. pose proof (no_uninterpreted_left_on_success_lemma _ _ _ _ _ _ _ H) as ->.
+  unfold interpret_strict in H. unfold interpret_lenient_fx.
+  destruct (pass_strict sch tt false T m0 stmts) as [[m1 r1]|x] eqn:E1; [|discriminate].
+  destruct (pass_strict_lenient_fx _ _ _ _ _ _ E1) as [d1 Hd1]. rewrite Hd1.
+  destruct (pass_strict_lenient_fx _ _ _ _ _ _ H) as [d2 Hd2]. rewrite Hd2. eauto.
+Qed.
+End Repaired.
